@@ -532,8 +532,18 @@ def build_population(prop, tier, seed):
         rng = common.rng_for(seed, prop, i)
         k = profile(prop, rng)
         hh = gen.HistoryGen(rng, k).gen()
+        if hh["rows"] and rng.random() < 0.08:
+            # security names are names as written, whatever their case (also in opening positions)
+            hh = rename_secs_case(hh, rng.choice([["brk.b", "vfv.to", "xeqt", "zag"], ["Foo", "bAR", "Qqq.To", "Abc"]]))
         pop.append((common.case_id(seed, prop, i), "random #%d" % i, hh))
     return pop
+
+
+def rename_secs_case(h, names):
+    secs = sorted({r["sec"] for r in h["rows"]} | set(h.get("init", {})))
+    m = {s_: names[i % len(names)] + ("" if i < len(names) else str(i)) for i, s_ in enumerate(secs)}
+    rows = [dict(r, sec=m[r["sec"]]) for r in h["rows"]]
+    return {"rows": rows, "init": {m[s_]: v for s_, v in h.get("init", {}).items()}, "features": h.get("features", [])}
 
 
 def _worker(args):
